@@ -390,3 +390,19 @@ Theorem c17_pty_output_never_closes_refuted :
          q_pc (prun true (sched ++ more)) = QLoop /\ r_complete (precognise (ptrace (prun true (sched ++ more)))) = false.
 Proof. exact pty_output_never_closes_refuted. Qed.
 Print Assumptions c17_pty_output_never_closes_refuted.
+
+(* once the terminal frame is out the waiter takes no chunk from the reader's channel, handles no control request and
+   no cancel request: no append to the log, no frame, whatever the four sources do - the summary's counts are final *)
+Theorem c17_pty_frozen_after_terminal : forall (keeps : bool) (sched more : list pact) (ap : bool),
+  q_pc (prun keeps sched) = QEnd ->
+  pstep keeps (prun keeps (sched ++ more)) QLoopChunk = None
+  /\ pstep keeps (prun keeps (sched ++ more)) (QLoopCtl ap) = None
+  /\ pstep keeps (prun keeps (sched ++ more)) QLoopCancel = None.
+Proof. exact pty_frozen_after_terminal. Qed.
+Print Assumptions c17_pty_frozen_after_terminal.
+
+(* what the PTY recogniser accepts, spelled out: one spawn frame first, running right after it, output frames and
+   acknowledgements only while running, a cancel request before the cancelled frame, exactly one terminal status, last *)
+Theorem c17_pty_language_shape : forall t : list pev, pshape (precognise t) t.
+Proof. exact precognise_shape. Qed.
+Print Assumptions c17_pty_language_shape.
